@@ -158,8 +158,8 @@ def _parse_op(description, el_op, invocation, allow_concat=False, implicit_outpu
                     exprs_out = [stage1.map(expr_in, _replace, include_children=True) for expr_in in exprs_in]
                 else:
                     exprs_out = [stage1.remove(expr_in, stage1.Brackets, keep_children=False) for expr_in in exprs_in]
-            elif all(c.ndim == 0 for c in list(el_op.children[0].children) + list(el_op.children[1].children)):
-                # Scalar inputs and outputs
+            elif len(el_op.children[1].children) == 1 and all(c.ndim == 0 for c in list(el_op.children[0].children) + list(el_op.children[1].children)):
+                # Scalar inputs and single scalar output
                 # -> Find superset expression
                 if len(exprs_in) == 1:
                     # Only one input -> use it as output
